@@ -79,6 +79,8 @@ var goSpecialFileSuffix = map[string]bool{
 	"solaris": true, "wasip1": true, "windows": true, "zos": true,
 	"386": true, "amd64": true, "arm": true, "arm64": true, "loong64": true, "mips": true, "mips64": true,
 	"mips64le": true, "mipsle": true, "ppc64": true, "ppc64le": true, "riscv64": true, "s390x": true, "wasm": true,
+	"amd64p32": true, "armbe": true, "arm64be": true, "mips64p32": true, "mips64p32le": true, "ppc": true,
+	"riscv": true, "s390": true, "sparc": true, "sparc64": true,
 }
 
 // handlerFileName returns the name of the file that holds the handler(s) of the method/service 'name'.
